@@ -205,19 +205,34 @@ class NameLookupRewriteVisitor(NodeTransformerBase):
 
     visit_SetComp = visit_DictComp = visit_GeneratorExp = visit_ListComp
 
-    def visit_FunctionDef(self, node: ast.FunctionDef) -> ast.AST:
-        self.scopes[-1].add(node.name)
+    def bind(self, node: ast.stmt, names: list[str]) -> Any:
+        # In a function, the names defined by the statement are local to
+        # it.  Elsewhere they are stored like any name that is assigned
+        # to (they do not hide the variables of that name for good).
+        if len(self.scopes) > 1:
+            self.scopes[-1].update(names)
+            return node
+        return [node] + [
+            ast.Assign([self.apply_transform(store(name))], load(name))
+            for name in names
+        ]
+
+    def visit_FunctionDef(self, node: ast.FunctionDef) -> Any:
         # The parameters are bound in the function only
-        self.scopes.append(set(self.scopes[-1]))
+        self.scopes.append(set(self.scopes[-1]) | {node.name})
         try:
-            return super().generic_visit(node)
+            super().generic_visit(node)
         finally:
             self.scopes.pop()
+        return self.bind(node, [node.name])
 
-    def visit_alias(self, node: ast.alias) -> ast.AST:
-        name = node.asname if node.asname is not None else node.name
-        self.scopes[-1].add(name)
-        return super().generic_visit(node)
+    def visit_Import(self, node: ast.Import | ast.ImportFrom) -> Any:
+        return self.bind(node, [
+            alias.asname or alias.name.partition('.')[0]
+            for alias in node.names if alias.name != '*'
+        ])
+
+    visit_ImportFrom = visit_Import
 
     def visit_Lambda(self, node: ast.Lambda) -> ast.AST:
         # The names bound by an enclosing lambda stay visible
